@@ -92,6 +92,72 @@ CLAIMED = {
         "whose delimiter the tokenizer and parse_value know, loop emission pairing, number formats within the reader's language.",
         "decides R15.1-R15.5; arbitrary strings (tabs, nested quotes, runs of blanks) and semicolon text blocks are not decided",
     ),
+    "C05": (
+        "rational normal forms of the weight and the interpolation kernels with guard signatures, sibling-kernel comparison, squared-distance form extraction, guard dominance for the table row; thorough: table scan",
+        "clause-level static decision on density.py and _density.pyx: table binding under a range guard, weight = a/(a+b+bg) in both "
+        "paths, interpolation as a convex combination of neighbouring entries (batch = single up to one named difference), positions "
+        "entering only through |p - a|^2 / bohr^2 with one constant, additive accumulation. Structure yes, numerics no.",
+        "decides R05.1-R05.5 (+T05 table scan in the thorough tier); float32 rounding and agreement with tabulated densities are not "
+        "decided; accepted named difference: interp_f_one ufill = 0.0",
+    ),
+    "C06": (
+        "import resolution without importing (stubs/sources of installed distributions), registry agreement for 51 tables, exhaustive exact check of all tilings over 256 cube indices with geometry extracted from the code, transformation-step classification",
+        "clause-level static decision: the surface wrappers can import what they use; LutProvider wiring; every add_triangles call agrees "
+        "with its table; every tiling selectable for each cube index uses straddling edges only, is edge-manifold inside the cube and "
+        "leaves one consistently oriented matching on every face; axis permutations / winding / origin shift; bounding box; wrapper "
+        "plumbing. Local closedness and plumbing are decided, global closedness is not.",
+        "decides R06.1-R06.3, T06.4, R06.5-R06.7; agreement of neighbouring cells on ambiguous faces (run-time test_face), shared-vertex "
+        "layers, convergence of volume / isovalue and enclosure of atoms are not decided",
+    ),
+    "C09": (
+        "guard dominance of the error check, sibling call-argument agreement, translation-behaviour tags (equivariant / invariant), value-kind tags, sibling event-trace equality of the two root finders",
+        "clause-level static decision: a missing surface is an error before the transform, the property channel uses the radii's "
+        "origin, origins move with the atoms and bounds do not, element lookups that size the bounds get atomic numbers, the two "
+        "Brent root finders are the same algorithm. Translation / permutation structure is decided, rotation is not.",
+        "decides R09.1-R09.4; inherits C05 R05.4; rotation independence (C08 + discretisation) and convergence of Brent's iteration are not decided",
+    ),
+    "C10": (
+        "writer/reader agreement of dictionaries, token positions and section order (G8/G9), axis and unit tags (G1/G6), format-spec precision",
+        "clause-level static decision on the CIF / SHELX / POSCAR writers and readers and the dispatch maps: keys, axis-to-column "
+        "binding, units, token positions, SFAC pairing and order, POSCAR line indices and permutation, extension normalisation, "
+        "decimals. Layout is decided, numeric precision beyond the format width is not.",
+        "decides R10.1-R10.5; LATT/SYMM soundness is C02, CIF text is C15, operation strings are C11; the SHELX writer carries no occupancies",
+    ),
+    "C12": (
+        "exact polynomial identities modulo sin^2+cos^2=1 and sqrt(x)^2=x over the matrix literals of set_lengths_and_angles; axis-name/index agreement; angle-unit tags at all construction sites",
+        "clause-level static decision on unit_cell.py: direct.inverse = I, det = V, row norms/dots, starred lengths and angles against "
+        "the inverse's columns are *proved* as identities; accessor names vs indices; units at 10 call sites; transform words. Closed "
+        "forms are decided for all parameter values, conditioning is not.",
+        "decides R12.1-R12.5; arccos clipping, the snapping tolerance of `parameters` and floating-point conditioning are not decided",
+    ),
+    "C13": (
+        "exact rational matrix algebra on the basis-change literals, exact conjugation of the R-lattice groups of the table, statement-ordering check, coordinate-space / unit tags of the supercell builders",
+        "clause-level static decision: the two trigonal matrices are exact mutual inverses agreeing across modules, the H->R matrix maps "
+        "the hexagonal rows of the seven R-lattice groups exactly onto their rhombohedral rows, the switch reads Cartesian positions "
+        "under the old cell and writes fractional ones under the new, supercells use the new cell and every translated molecule.",
+        "decides R13.1, T13.2, R13.3-R13.5; coincidence of atoms between descriptions (geometry) is not decided; staleness after the switch is C14",
+    ),
+    "C18": (
+        "determinant-sign typestate through the function, matrix word algebra",
+        "clause-level static decision on util/num.py: on every path to R = v.w the sign of det(v)det(w) is positive (tested product, "
+        "single negation of the last column/row), cov = A^T B, application A.R, RMSD helper and dimer plumbing. The proper-rotation "
+        "clause is decided, optimality is not.",
+        "decides R18.1-R18.3; optimality (SVD numerics) and planar/collinear degeneracy are not decided",
+    ),
+    "C19": (
+        "homogeneity-degree propagation through attribute stores, dual-point plumbing, orientation-parity structure",
+        "clause-level static decision on crystal/wulff.py: vertices are homogeneous of degree 1 in the energies, each vertex uses a "
+        "normal and energy of its own simplex, facet membership, in-plane basis / atan2 ordering / fan triangulation. Scaling and "
+        "plumbing are decided, the geometry of the hull is not.",
+        "decides R19.1-R19.3; which simplices the hull has, degeneracies and volume are not decided; the absolute pruning threshold is the recorded exception to homogeneity",
+    ),
+    "C20": (
+        "sibling-kernel update summaries, affine index agreement, C-type range facts from the pyx side table, effect scan, exhaustive table conditions over GF(2)",
+        "clause-level static decision on sampling/: batch and single kernels perform identical recurrences and read the same X entries, "
+        "coordinates are uint32/2^32 or % 1, no global/random state, every used row of the Joe-Kuo table has odd m_k < 2^k (quick: "
+        "rows 2..1000, thorough: all 21200), front-end windows. Agreement, range and determinism are decided, the net property partly.",
+        "decides R20.1-R20.6, T20.4; the (0,m,2)-net property, C[i] <= L and float rounding of ceil(log N/log 2) are not decided",
+    ),
 }
 
 PENDING_REASON = "check under construction (DESIGN.md section 5); not yet claimed"
